@@ -68,6 +68,16 @@ pub fn check_pair(sh: &mut Shard, a: &IG, b: &IG, lat: &Lat, verbose: bool) {
             return;
         }
     };
+    if lat.shear != 0 {
+        sh.class("lattice:sheared");
+        if orc.classes.0 & Classes::PROPER_CROSSING != 0 {
+            // nearly parallel long edges crossing properly: the node is a computed point and relate's matrix can be
+            // wrong there (known finding relate_ill_conditioned_crossing, judged by C01); the predicates are
+            // judged on the sheared pairs whose boundaries meet only at input vertices
+            sh.class("lattice:sheared:proper_crossing_left_to_C01");
+            return;
+        }
+    }
     let m = mstr(&orc.m);
     let mt = transpose(&orc.m);
     let (ga, gb) = (a.to_geo(lat), b.to_geo(lat));
@@ -187,6 +197,8 @@ pub fn run(ctx: &Ctx, sh: &mut Shard) {
         if a.n_segments() + b.n_segments() > 90 {
             continue;
         }
+        // one case in five on the sheared lattice (all edges nearly parallel, products beyond 2^53)
+        let lat = if k % 5 == 0 { Lat::random_sheared(&mut r) } else { lat };
         check_pair(sh, &a, &b, &lat, false);
         let g = 6;
         for _ in 0..3 {
